@@ -632,6 +632,26 @@ class Intervals:
                 st.update(res)
         elif k == "BinaryOperator" and n.get("op") == "=":
             self._assign(n["c"][0], self.eval(n["c"][1], st), st, rhs=n["c"][1])
+        elif k == "CompoundAssignOperator" and strip(n["c"][1]) is not None and strip(n["c"][1]).get("k") == "ConditionalOperator" \
+                and not n.get("_split"):
+            # x op= c ? a : b  is analysed as  x op= a  under c  and  x op= b  under !c, joined
+            co = strip(n["c"][1])
+            outs = []
+            for pol, val in ((True, co["c"][1]), (False, co["c"][2])):
+                s2 = self.refine(co["c"][0], pol, dict(st))
+                if s2 is None:
+                    continue
+                synth = dict(n)
+                synth["c"] = [n["c"][0], val]
+                synth["_split"] = True
+                self.transfer(synth, s2)
+                outs.append(s2)
+            if outs:
+                res = outs[0]
+                for o in outs[1:]:
+                    res = self._merge(res, o)
+                st.clear()
+                st.update(res)
         elif k == "CompoundAssignOperator":
             op = n.get("op", "")[:-1]
             a = self._range_of_lvalue(n["c"][0], st)
